@@ -57,3 +57,54 @@ func VHarnessDepLabels() {
 	vAssert(l.IsAbs(), "dep-labels: recorded dependency is not absolute")
 	vReach("accepted")
 }
+
+// VHarnessGenPaths (C12, confinement through the target() builtin): a declared output given as an
+// arbitrary string of vParam("n") bytes is either rejected or resolves to a location strictly inside
+// the project root (no '..' component survives, the path starts with the root), and likewise for a
+// declared source.
+func VHarnessGenPaths() {
+	vMkdirs(vTemp)
+	proj := &Project{root: vRoot, work: vWork, temp: vTemp, events: DiscardEvents,
+		flags: map[string]*Flag{}, modules: map[string]*module{}, targets: map[string]*runTarget{}}
+	m := &module{label: &label.Label{Kind: "module", Package: vGenPkgs[vParam("pkg")], Name: "BUILD.dawn"}}
+	thread := &starlark.Thread{}
+	thread.SetLocal("module", m)
+	b := make([]byte, vParam("n"))
+	for i := range b {
+		b[i] = vNondetU8("path")
+	}
+	raw := string(b)
+	var srcs, gens []string
+	if vParam("source") == 1 {
+		srcs = []string{raw}
+	} else {
+		gens = []string{raw}
+	}
+	_, err := proj.builtin_target(thread, starlark.NewBuiltin("target", nil), "t", nil, srcs, gens, &starlark.Function{}, false, false, "doc")
+	if err != nil {
+		vReach("rejected")
+		return
+	}
+	rt := proj.targets[m.label.Package+":t"]
+	if rt == nil {
+		vAssert(false, "gen-paths: target not registered")
+		return
+	}
+	f := rt.target.(*function)
+	paths := f.gens
+	if vParam("source") == 1 {
+		paths = f.sources
+	}
+	for _, p := range paths {
+		inside := len(p) > len(vRoot) && p[:len(vRoot)+1] == vRoot+"/" || p == vRoot
+		vAssert(inside, "gen-paths: a declared path resolves outside the project root")
+		for i := 0; i+2 <= len(p); i++ {
+			if p[i:i+2] == ".." && (i == 0 || p[i-1] == '/') && (i+2 == len(p) || p[i+2] == '/') {
+				vAssert(false, "gen-paths: a '..' component survives in a resolved path")
+			}
+		}
+	}
+	vReach("accepted")
+}
+
+var vGenPkgs = []string{"//", "//a", "//a/b"}
